@@ -205,6 +205,23 @@ theorem ref_verdict_agrees (env : Env) (hre : Spec.RegexTotal env)
   have he := (hv.done none st nofun ⟨(C15.sameWorld_iff.1 hst).left, rfl⟩ hdone).2.1
   rw [← he, List.isEmpty_iff]
 
+/-- **C02, globally, on the wider domain** whose side conditions are read locally
+    (`Spec.RefDomainL`: every `Spec.RefDomain` is one, and the bundled metaschemas — which no
+    `RefDomain` contains, because they have properties NAMED `multipleOf`/`divisibleBy` — are: C11). -/
+theorem ref_verdict_agrees_local (env : Env) (hre : Spec.RegexTotal env)
+    (hset : Spec.SetOrderOk env) (hf : Props.C15.StableFetch env)
+    (impl : FmtImpl) (d : Draft) (base : List (Str × Json)) (D : Str → Json → Bool)
+    (hD : Spec.RefDomainL env d base D)
+    (top : Str) (s i : Json) (hs : D top s = true) (hwi : Spec.WF i = true)
+    (fuel : Nat) (st : RState) (hst : Props.C15.SameWorld env base st st) (htop : st.top = top)
+    (hdone : (eval env impl (d.cfg none) fuel i s none st).stop = .done) :
+    ∀ m, fuel ≤ m →
+      ((eval env impl (d.cfg none) fuel i s none st).errs = [] ↔ Spec.validRN env d base m top s i = true) := by
+  intro m hm
+  have hv := evalRL_vd (impl := impl) hre hset hf hD fuel top s hs m hm i hwi st.scopes htop
+  have he := (hv.done none st nofun ⟨(C15.sameWorld_iff.1 hst).left, rfl⟩ hdone).2.1
+  rw [← he, List.isEmpty_iff]
+
 /-- … hence the specification's answer has a limit and the verdict is that limit -/
 theorem ref_verdict_limit (env : Env) (hre : Spec.RegexTotal env)
     (hset : Spec.SetOrderOk env) (hf : Props.C15.StableFetch env)
